@@ -1,13 +1,23 @@
 use crate::core::*;
 use crate::Args;
 
+pub mod c01;
 pub mod c02;
+pub mod c03;
+pub mod c04;
+pub mod c05;
 pub mod c06;
+pub mod c07;
 
 pub fn dispatch(args: &Args) -> i32 {
     match args.prop.as_str() {
+        "C01" => c01::run(args),
         "C02" => c02::run(args),
+        "C03" => c03::run(args),
+        "C04" => c04::run(args),
+        "C05" => c05::run(args),
         "C06" => c06::run(args),
+        "C07" => c07::run(args),
         p => {
             eprintln!("agv: no check for property {p}");
             2
